@@ -415,6 +415,109 @@ fn long_lived_env_job(ctx: &Ctx, target_nodes: usize) -> Stats {
     st
 }
 
+/// Sets of DIFFERENT widths living in ONE environment (a program with a set of bytes and a set of
+/// nibbles does exactly this): each set interacts only with sets of its own width, but every
+/// operation of every set goes through the same environment, interleaved.
+fn mixed_width_job(ctx: &Ctx, job: usize, histories: u64) -> Stats {
+    use std::collections::BTreeSet;
+    let mut st = Stats::new();
+    let mut rng = Rng::stream(ctx.seed, "C19.mixedwidth", job as u64);
+    for h in 0..histories {
+        let family: &[usize] = *rng.pick(&[&[1usize, 2, 3][..], &[2, 3, 4, 5], &[3, 4], &[0, 1, 6], &[4, 64], &[2, 33, 5], &[3, 3, 4, 4]]);
+        // two sets per width
+        let widths: Vec<usize> = family.iter().flat_map(|b| [*b, *b]).collect();
+        let len = 6 + rng.usize(40);
+        let mut ops: Vec<(u64, usize, usize, u64)> = Vec::new();
+        for _ in 0..len {
+            ops.push((rng.below(8), rng.usize(widths.len()), rng.usize(2), rng.next()));
+        }
+        st.evals += 1;
+        st.bump("mixed_width_histories");
+        let case = json!({"kind": "mixed-width", "seed": ctx.seed, "job": job, "history": h});
+        util::budget(50_000_000, 1000);
+        let widths2 = widths.clone();
+        let observed = guarded(move || {
+            let env = Rc::new(BDDEnv::new());
+            let widths = widths2;
+            let sets: Vec<BDDSet> = widths.iter().map(|b| BDDSet::with_env(*b, &env)).collect();
+            let mut refs: Vec<BTreeSet<usize>> = widths.iter().map(|_| BTreeSet::new()).collect();
+            let mut seen: Vec<Vec<usize>> = widths.iter().map(|_| Vec::new()).collect(); // elements used so far, for wide sets
+            let mut trace: Vec<String> = Vec::new();
+            let mut queries = 0u64;
+            for (kind, w, side, x) in &ops {
+                let w = *w;
+                let b = widths[w];
+                // the partner: the other set of the same width (or the set itself)
+                let o = if *side == 0 { w ^ 1 } else { w };
+                let name = |i: usize| format!("S{}<{}>", i, widths[i]);
+                match kind {
+                    0 | 1 | 2 => {
+                        let e = if b >= 64 { *x as usize } else { (*x as usize) & ((1usize << b) - 1) };
+                        sets[w].insert(e);
+                        refs[w].insert(e);
+                        seen[w].push(e);
+                        seen[w ^ 1].push(e);
+                        trace.push(format!("{}.insert({:#x})", name(w), e));
+                    }
+                    3 => {
+                        sets[w].union(&sets[o]);
+                        let other = refs[o].clone();
+                        refs[w].extend(other);
+                        trace.push(format!("{}.union({})", name(w), name(o)));
+                    }
+                    4 => {
+                        sets[w].intersect(&sets[o]);
+                        let other = refs[o].clone();
+                        refs[w].retain(|e| other.contains(e));
+                        trace.push(format!("{}.intersect({})", name(w), name(o)));
+                    }
+                    5 => {
+                        sets[w].complement(&sets[o]);
+                        let other = refs[o].clone();
+                        refs[w].retain(|e| !other.contains(e));
+                        trace.push(format!("{}.complement({})", name(w), name(o)));
+                    }
+                    6 if b <= 6 => {
+                        sets[w].universe();
+                        refs[w] = (0..1usize << b).collect();
+                        trace.push(format!("{}.universe()", name(w)));
+                    }
+                    _ => {
+                        sets[w].empty();
+                        refs[w].clear();
+                        trace.push(format!("{}.empty()", name(w)));
+                    }
+                }
+                // every set of every width is read back after every step
+                for s in 0..widths.len() {
+                    let bs = widths[s];
+                    let probe: Vec<usize> = if bs <= 6 { (0..1usize << bs).collect() } else { seen[s].iter().rev().take(6).copied().chain([0usize, (x.rotate_left(17) as usize) & if bs >= 64 { usize::MAX } else { (1usize << bs) - 1 }]).collect() };
+                    for e in probe {
+                        queries += 1;
+                        let got = sets[s].contains(e);
+                        if got != refs[s].contains(&e) {
+                            return Err((trace.clone(), s, bs, e, got));
+                        }
+                    }
+                }
+            }
+            Ok((trace.len(), queries))
+        });
+        match observed {
+            Ok(Ok((k, q))) => {
+                st.add("mixed_width_operations", k as u64);
+                st.add("mixed_width_queries", q);
+                st.nt.insert(mix(widths.iter().fold(7u64, |a, b| mix(a, *b as u64)), mix(h, job as u64) ^ 0x1919));
+            }
+            Ok(Err((trace, s, bs, e, got))) => {
+                st.violate("c19.membership", "C19:mixed-width:wrong-membership".into(), format!("sets of widths {:?} in one environment: after [{}] set S{} (b = {}) answers contains({:#x}) = {}, the reference says {}", widths, trace.join("; "), s, bs, e, got, !got), case);
+            }
+            Err(c) => st.violate("c19.panic", format!("C19:mixed-width:{}", c.signature()), format!("widths {:?}: {:?}", widths, c), case),
+        }
+    }
+    st
+}
+
 /// Elements wider than a machine word: a user-defined element type (the trait is public).
 #[derive(Clone, Copy, Debug, PartialEq, Eq, PartialOrd, Ord)]
 pub struct Wide(pub u128);
@@ -544,6 +647,7 @@ pub fn run(ctx: &Ctx) -> (Stats, Spec) {
     let parts = util::par_jobs(16, |job| {
         let mut s = random_job(ctx, job, iters);
         s.merge(wide_job(ctx, job, ctx.tier.pick(40u64, 600u64)));
+        s.merge(mixed_width_job(ctx, job, ctx.tier.pick(60u64, 3_000u64)));
         if job == 0 {
             s.merge(long_lived_env_job(ctx, ctx.tier.pick(1_400_000usize, 5_000_000usize)));
         }
@@ -554,7 +658,7 @@ pub fn run(ctx: &Ctx) -> (Stats, Spec) {
         super::common::miri_tripwire(ctx, &mut st, 150);
     }
     let spec = Spec {
-        rule: "breadth-first over reference states: two sets sharing one environment, each (state pair, next operation — insert, union, intersect, complement, empty, universe, contains, and `X = Y.clone()`) executed on fresh real sets via the shortest history reaching the state; then all memberships of both sets are read twice through contains() and the public bdd field is compared across the queries; plus histories on WIDE sets (b in {31, 32, 33, 40, 48, 63, 64} with usize elements or a user-defined element type, b in {65, 66, 72, 96, 127, 128} with a user-defined 128-bit element type) over pools of sampled elements, their one-bit neighbours and (b > 64) elements equal modulo 2^64; plus ONE long history of two 64-bit sets in one environment that grows beyond 1.4 million [quick] / 5 million [thorough] nodes, memberships of the newest, older and never-inserted elements compared after every step; plus random histories of length 5-64 [quick] / 5-504 [thorough] with b in 2..4. distinct = (state pair before the last operation, last operation, b); non-trivial = both sets neither empty nor the universe.".into(),
+        rule: "breadth-first over reference states: two sets sharing one environment, each (state pair, next operation — insert, union, intersect, complement, empty, universe, contains, and `X = Y.clone()`) executed on fresh real sets via the shortest history reaching the state; then all memberships of both sets are read twice through contains() and the public bdd field is compared across the queries; plus histories on WIDE sets (b in {31, 32, 33, 40, 48, 63, 64} with usize elements or a user-defined element type, b in {65, 66, 72, 96, 127, 128} with a user-defined 128-bit element type) over pools of sampled elements, their one-bit neighbours and (b > 64) elements equal modulo 2^64; plus histories over six to eight sets of DIFFERENT widths (families {1,2,3}, {2,3,4,5}, {3,4}, {0,1,6}, {4,64}, {2,33,5}, {3,3,4,4}; two sets per width) in one environment, all memberships of all sets read back after every step; plus ONE long history of two 64-bit sets in one environment that grows beyond 1.4 million [quick] / 5 million [thorough] nodes, memberships of the newest, older and never-inserted elements compared after every step; plus random histories of length 5-64 [quick] / 5-504 [thorough] with b in 2..4. distinct = (state pair before the last operation, last operation, b); non-trivial = both sets neither empty nor the universe.".into(),
         assumptions: vec![
             "only elements < 2^b are used (the statement speaks of b-bit integers)".into(),
             "`complement` is set difference, as the statement says".into(),
@@ -564,6 +668,7 @@ pub fn run(ctx: &Ctx) -> (Stats, Spec) {
             ("self_aliased_ops".into(), 100, "self-aliased operands never exercised".into()),
             ("wide_set_histories".into(), 200, "wide sets (b >= 31) never exercised".into()),
             ("wide_set_histories_with_a_user_defined_element_type".into(), 50, "sets over a user-defined element type never exercised".into()),
+            ("mixed_width_histories".into(), 500, "sets of different widths in one environment never exercised".into()),
             ("long_lived_environment_queries".into(), 500, "long-lived environment never exercised".into()),
             ("queries_as_last_op".into(), 500, "queries never exercised as last operation".into()),
             ("distinct_nontrivial".into(), 1_000, "too few non-trivial cases".into()),
@@ -577,6 +682,14 @@ pub fn replay(_ctx: &Ctx, _monitor: &str, case: &Value, st: &mut Stats) {
         let mut c2 = _ctx.clone();
         c2.seed = case.get("seed").and_then(|j| j.as_u64()).unwrap_or(_ctx.seed);
         st.merge(long_lived_env_job(&c2, case.get("target").and_then(|j| j.as_u64()).unwrap_or(1_400_000) as usize));
+        return;
+    }
+    if case.get("kind").and_then(|k| k.as_str()) == Some("mixed-width") {
+        let job = case.get("job").and_then(|j| j.as_u64()).unwrap_or(0) as usize;
+        let h = case.get("history").and_then(|j| j.as_u64()).unwrap_or(0);
+        let mut c2 = _ctx.clone();
+        c2.seed = case.get("seed").and_then(|j| j.as_u64()).unwrap_or(_ctx.seed);
+        st.merge(mixed_width_job(&c2, job, h + 1));
         return;
     }
     if case.get("kind").and_then(|k| k.as_str()) == Some("wide") {
